@@ -139,7 +139,11 @@ def run_shuffle(job: dict) -> dict:
         # a call may be preceded by a change of the object's own inverter (the world moves on between two calls)
         calls = [x for c in calls for x in ([{"o": c["o"], "sim": c["_poke"]}] if "_poke" in c else []) +
                  [{k: v for k, v in c.items() if k != "_poke"}]]
-        if only is None:
+        if only == "conc":
+            # the two sequences as two tasks on one loop: requests of both objects are in flight at the same time
+            prog = {"inv": job["inv"], "calls": [], "tasks": [[c for c in calls if c["o"] == 0], [c for c in calls if c["o"] == 1]],
+                    "delay": 2}
+        elif only is None:
             prog = {"inv": job["inv"], "calls": calls}
         else:
             # "alone": the other object does not even exist in the process
@@ -149,25 +153,28 @@ def run_shuffle(job: dict) -> dict:
             raise RuntimeError("shuffle program did not finish")
         per = [[], []]
         oplogs.extend(tr.get("oplog", []))
-        cur = None
+        cur = {}
+        t2o = {int(k): v for k, v in (tr.get("tr2sim") or {}).items()}
         for ev in tr["ev"]:
             if ev["e"] == "CALL":
                 a0 = ev.get("args") or []
                 label = ev["api"] + (f"({a0[0]})" if a0 and isinstance(a0[0], str) else
                                      (f"({a0[0].get('opmode')})" if a0 and isinstance(a0[0], dict) and "opmode" in a0[0] else ""))
-                cur = {"api": label, "reqs": [], "o": ev["o"]}
-            elif ev["e"] == "SEND" and cur is not None:
-                cur["reqs"].append(ev["data"])
-            elif ev["e"] == "RET" and cur is not None:
+                cur[ev["o"]] = {"api": label, "reqs": [], "o": ev["o"]}
+            elif ev["e"] == "SEND":
+                o = t2o.get(ev["tr"], 0) if only == "conc" else (next(iter(cur)) if cur else None)
+                if o in cur:
+                    cur[o]["reqs"].append(ev["data"])
+            elif ev["e"] == "RET" and ev.get("o") in cur:
+                c_ = cur.pop(ev["o"])
                 if ev.get("ok"):
-                    cur["ok"] = True
-                    cur["val"] = json.dumps(ev["val"], sort_keys=True, default=str)
-                    cur["val_end"] = json.dumps(ev.get("val_end", ev["val"]), sort_keys=True, default=str)
+                    c_["ok"] = True
+                    c_["val"] = json.dumps(ev["val"], sort_keys=True, default=str)
+                    c_["val_end"] = json.dumps(ev.get("val_end", ev["val"]), sort_keys=True, default=str)
                 else:
-                    cur["ok"] = False
-                    cur["val"] = cur["val_end"] = f"{ev.get('exc')}:{ev.get('msg')}"
-                per[cur["o"]].append(cur)
-                cur = None
+                    c_["ok"] = False
+                    c_["val"] = c_["val_end"] = f"{ev.get('exc')}:{ev.get('msg')}"
+                per[c_["o"]].append(c_)
         return per + [oplogs]
 
     # each sequence starts with the object's own read_device_info: the shuffles also interleave those
@@ -187,6 +194,11 @@ def run_shuffle(job: dict) -> dict:
             simlogs.extend(tau[2])
         for o in (0, 1):
             out.append({"o": o, "shuffle": list(sh), "solo": solo[o], "tau": tau[o],
+                        "fr": "tcp" if job["inv"][o].get("port", 8899) == 502 else "rtu"})
+    if job.get("conc"):
+        tau = records(s[0] + s[1], "conc")
+        for o in (0, 1):
+            out.append({"o": o, "shuffle": [2], "solo": solo[o], "tau": tau[o],
                         "fr": "tcp" if job["inv"][o].get("port", 8899) == 502 else "rtu"})
     return {"job": {k: job[k] for k in ("pair", "s1", "s2", "priors", "inv")}, "cases": out, "simlogs": simlogs}
 
@@ -334,6 +346,11 @@ def check(prop: str, tier: str, seed: int) -> int:
             ib["host"] = "inv0"
             jobs.append({"pair": [a, b], "s1": s1, "s2": s2, "priors": ["zeros", "zeros"],
                          "shuffles": dshuffles(len(s1) + 1, len(s2) + 1, quick, rnd), "inv": [ia, ib]})
+    # every job whose objects talk to different hosts is also run with the two sequences as concurrent tasks (requests of both
+    # objects in flight at the same time)
+    for j in jobs:
+        if not any(i.get("host") for i in j["inv"]):
+            j["conc"] = True
     res = engine.parallel_map("harness.checks_shuffle", "run_shuffle", jobs, procs=16, chunk=2)
     cases, src, inter = judge_results(run, res)
     from . import checks_sim
@@ -350,6 +367,9 @@ def replay_job(prop: str, obj: dict, path: str) -> int:
     j = obj["replay"]["shufflejob"]
     run = Run(prop, "replay", 0, "model_checking")
     job = {"pair": j["pair"], "s1": j["s1"], "s2": j["s2"], "priors": j["priors"], "inv": j["inv"], "shuffles": [tuple(j["shuffle"])]}
+    if list(j["shuffle"]) == [2]:      # the concurrent run of the two sequences
+        job["shuffles"] = []
+        job["conc"] = True
     judge_results(run, [run_shuffle(job)])
     for v in run.violations:
         print(f"VIOLATION property={prop} replay={path} clause={v['clause']}")
